@@ -155,7 +155,7 @@ pub fn recover_and_check(image: &Image, dirs: &BTreeSet<PathBuf>, cands: &[Model
             } else {
                 "extra_data"
             };
-            std::mem::forget(db);
+            drop(db);
             return Err(Violation::new(
                 &c(kind),
                 format!(
@@ -173,11 +173,11 @@ pub fn recover_and_check(image: &Image, dirs: &BTreeSet<PathBuf>, cands: &[Model
         b.add_put(b"probe".to_vec(), b"P1".to_vec());
         b.add_put(keys[0].clone(), b"P2".to_vec());
         if let Err(e) = db.apply(WriteOptions::default(), b) {
-            std::mem::forget(db);
+            drop(db);
             return Err(Violation::new(&c("probe_write_fails"), format!("a write after recovery fails: {}", e)));
         }
         if let Err(e) = db.delete(WriteOptions::default(), keys[keys.len() - 1].clone()) {
-            std::mem::forget(db);
+            drop(db);
             return Err(Violation::new(&c("probe_write_fails"), format!("a delete after recovery fails: {}", e)));
         }
         expect.insert(b"probe".to_vec(), b"P1".to_vec());
@@ -185,7 +185,7 @@ pub fn recover_and_check(image: &Image, dirs: &BTreeSet<PathBuf>, cands: &[Model
         expect.remove(&keys[keys.len() - 1]);
         let got2 = read_contents(&db, keys).map_err(|v| Violation::new(&c(v.clause.trim_start_matches("recover.")), v.detail))?;
         if got2 != expect {
-            std::mem::forget(db);
+            drop(db);
             return Err(Violation::new(
                 &c("probe_not_visible"),
                 format!("after recovery + probe writes contents are {} but should be {}", show_model(&got2), show_model(&expect)),
@@ -199,7 +199,7 @@ pub fn recover_and_check(image: &Image, dirs: &BTreeSet<PathBuf>, cands: &[Model
             shuttle::thread::yield_now();
         }
         if let Err(v) = check_directory(&db, &fs) {
-            std::mem::forget(db);
+            drop(db);
             return Err(v);
         }
     }
@@ -208,7 +208,7 @@ pub fn recover_and_check(image: &Image, dirs: &BTreeSet<PathBuf>, cands: &[Model
     let db = DB::open(db_options(&fs, cfg)).map_err(|e| Violation::new(&c("reopen_fails"), format!("clean reopen after recovery fails: {}", e)))?;
     let got3 = read_contents(&db, keys).map_err(|v| Violation::new(&c(v.clause.trim_start_matches("recover.")), v.detail))?;
     if got3 != expect {
-        std::mem::forget(db);
+        drop(db);
         return Err(Violation::new(
             &c("lost_after_reopen"),
             format!("after recovery, probe writes and a clean reopen contents are {} but should be {}", show_model(&got3), show_model(&expect)),
